@@ -231,7 +231,7 @@ _R9 = {
  "C02": " Plus: in the concurrent-readers cases a SECOND cache with its own writer is updated at the same time; every batch an operation returns holds exactly the events of that operation on that cache.",
  "C03": " Plus: a relist that turns up a difference of 2-90 objects followed AT ONCE (changes placed right after the list's snapshot, delivered by the watch session opened at the list's version) by watch events for objects of that difference: replaying a subscriber's stream gives the controller's cache; an object learnt from the watch whose Delete the stream loses is gone after the next completed list whatever that list's ordinal (both parities, names re-used).",
  "C06": " Plus: NSName filters built (spread form) from ONE slice the caller keeps editing and re-using, on a filtered subscription and a filtered clone, with parent events flowing between the edits and the Refilters: the node mirrors the selection of the ids its filter was BUILT from.",
- "C10": " Plus: a never-reading filtered subscription holding H<100 events when a Refilter produces a batch that only partly fits: it ends with min(H+T,100) events (the H earlier ones in order, then distinct events of the batch), a reading sibling gets all of a batch that fits its emptied buffer.",
+ "C10": " Plus: a never-reading filtered subscription holding H<100 events when a Refilter produces a batch that only partly fits: it ends with min(H+T,100) events (the H earlier ones in order, then distinct events of the batch), a reading sibling gets all of a batch that fits its emptied buffer. Plus: a consumer with a full buffer takes everything it holds while the library is still reporting its overrun (moment held open by the logger); the 1-3 events published after that, its buffer empty, all arrive in order.",
  "C12": " Plus: the user's context is of a hand-written type (own Done channel, opaque to package context) and is never cancelled: after Close / Close x3 / a failing list the census - taken BEFORE that context is cancelled and including the watcher goroutines package context runs for contexts derived from such a parent - is empty.",
 }
 for _p, _t in _R9.items():
@@ -292,11 +292,11 @@ FLOORS_QUICK = {
  },
  "C06": {
   "caller-slice-mirror-checks": 140,
-  "filtered-node-checks": 35900,
-  "filtered-node-checks-nonempty": 22026,
+  "filtered-node-checks": 35889,
+  "filtered-node-checks-nonempty": 22036,
   "late-first-filter-cases": 12,
-  "mid-flow-closes": 710,
-  "mirror-checks": 9454,
+  "mid-flow-closes": 709,
+  "mirror-checks": 9405,
   "ready-moments": 640,
   "refilters": 6466
  },
@@ -335,6 +335,7 @@ FLOORS_QUICK = {
   "batches-that-partly-fit": 16,
   "blocked-monitors-checked": 44,
   "cache-current-checks": 586,
+  "catch-up-checks": 18,
   "healthy-streams-checked": 232,
   "partial-batch-checks": 20,
   "resumed-consumer-checks": 48,
@@ -343,7 +344,7 @@ FLOORS_QUICK = {
   "stalled-refilter-checks": 19,
   "stalled-streams-checked": 171,
   "stress-typed-cases": 8,
-  "stress-typed-reads": 1256
+  "stress-typed-reads": 1135
  },
  "C11": {
   "outside-nodes-checked": 813,
